@@ -1451,3 +1451,120 @@ func ruleR13_10(w *World, r *Report) {
 		r.OK("R13.10", key, w.Pos(fn.Pos()), fmt.Sprintf("%d hand-over(s) in the loop, each under a terminator test", n))
 	}
 }
+
+// ---------- R9.8: a constraint handed to a live solver is freed of repeated variables before it is scanned ----------
+
+// Everything behind AppendClause (the scan, the watches, conflict analysis) assumes that a constraint mentions each
+// variable once: the parsers guarantee it for what they build, but AppendClause receives the constraint as the caller
+// wrote it. Detecting a repetition needs a loop over the literals that remembers the variables met (a set keyed by
+// variable or literal that is read and written) or compares two literals of the constraint.
+func ruleR9_8(w *World, r *Report) {
+	r.Rule("R9.8", "before Solver.AppendClause examines the literals of the new constraint, the constraint passes through a duplicate detection over its literals (a loop that keeps a set keyed by variable / literal, or compares two literals of the constraint)", 1)
+	fn := w.Func("solver", "Solver.AppendClause")
+	if fn == nil || len(fn.Params) < 2 {
+		r.Unk("R9.8", "solver.(*Solver).AppendClause", "-", "method not found")
+		return
+	}
+	key := "(*solver.Solver).AppendClause merges repeated variables first"
+	detects := func(g *ssa.Function) bool {
+		found := false
+		for _, h := range loopHeaders(g) {
+			body := loopBlocks(g, h)
+			readsElem := false
+			setRead, setWrite := false, false
+			cmpTwo := false
+			for b := range body {
+				for _, ins := range b.Instrs {
+					if v, ok := ins.(ssa.Value); ok {
+						if _, _, isE := clauseElem(w, v); isE {
+							readsElem = true
+						}
+					}
+					switch x := ins.(type) {
+					case *ssa.Lookup:
+						if mt, ok := x.X.Type().Underlying().(*types.Map); ok {
+							if k := typeShort(mt.Key()); k == "solver.Var" || k == "solver.Lit" {
+								setRead = true
+							}
+						}
+					case *ssa.MapUpdate:
+						if mt, ok := x.Map.Type().Underlying().(*types.Map); ok {
+							if k := typeShort(mt.Key()); k == "solver.Var" || k == "solver.Lit" {
+								setWrite = true
+							}
+						}
+					case *ssa.BinOp:
+						if x.Op == token.EQL || x.Op == token.NEQ {
+							_, _, e1 := clauseElem(w, x.X)
+							_, _, e2 := clauseElem(w, x.Y)
+							if e1 && e2 {
+								cmpTwo = true
+							}
+							// lit == other.Negation()
+							if c, isC := x.Y.(*ssa.Call); isC && e1 && len(c.Call.Args) == 1 {
+								if _, _, e3 := clauseElem(w, c.Call.Args[0]); e3 {
+									cmpTwo = true
+								}
+							}
+						}
+					}
+				}
+			}
+			if readsElem && ((setRead && setWrite) || cmpTwo) {
+				found = true
+			}
+		}
+		return found
+	}
+	clause := fn.Params[1]
+	// the scan: first status call in a loop of AppendClause or of its scan helper
+	scanFn, via := appendClauseScanFn(w)
+	var scanAt ssa.Instruction
+	if via != nil {
+		scanAt = via
+	} else {
+		for _, ci := range callsIn(scanFn) {
+			if c, ok := ci.(*ssa.Call); ok && typeShort(c.Type()) == "solver.Status" && inLoop(scanFn, c.Block()) {
+				if scanAt == nil || instrDominates(c, scanAt) {
+					scanAt = c
+				}
+			}
+		}
+	}
+	if scanAt == nil {
+		r.Unk("R9.8", key, w.Pos(fn.Pos()), "the scan over the literals of the new constraint was not found")
+		return
+	}
+	ok := false
+	where := ""
+	if via == nil && detects(fn) {
+		// detection inside AppendClause itself must come before the scan: accept only when its loop dominates the scan
+		for _, h := range loopHeaders(fn) {
+			if h.Dominates(scanAt.Block()) && !loopBlocks(fn, h)[scanAt.Block()] {
+				ok, where = true, "in AppendClause itself"
+			}
+		}
+	}
+	for _, ci := range callsIn(fn) {
+		c, isC := ci.(*ssa.Call)
+		if !isC || !instrDominates(c, scanAt) {
+			continue
+		}
+		passes := false
+		for _, a := range c.Call.Args {
+			if a == ssa.Value(clause) {
+				passes = true
+			}
+		}
+		if !passes {
+			continue
+		}
+		for _, callee := range w.Callees[c] {
+			if w.PkgName(callee) == "solver" && detects(callee) {
+				ok, where = true, "by "+w.FuncName(callee)
+			}
+		}
+	}
+	r.Check(ok, "R9.8", key, w.InstrPos(scanAt), "repeated variables are detected "+where+" before the scan",
+		"nothing between the entry of AppendClause and the scan of the new constraint detects a variable that occurs twice: a clause such as (x x x), or a constraint with x and not x, reaches the watch lists and conflict analysis, which assume distinct variables (observed: index out of range in learnClause, wrong answers)")
+}
